@@ -28,6 +28,9 @@ type Ctx struct {
 	cliDone bool
 	// namingIdentOnly: of the default-name table only "the name is an identifier" is an obligation (C01)
 	namingIdentOnly bool
+	// collisionRows: the rows about collisions the name allocation does not resolve (known findings D19–D21)
+	// are obligations of the properties that state distinctness (C12) and compilability (C01) only
+	collisionRows bool
 	cliPaths        []*cliPath
 }
 
